@@ -113,6 +113,26 @@ pub fn record_huge(seed: u64, thorough: bool, path: &str, only: &str) -> Value {
     // Sparse: universes up to usize::MAX with few ones (low-part widths up to 63).
     let universes: Vec<usize> = if thorough { vec![1 << 32, (1 << 40) + 3, 1 << 48, (1 << 56) - 1, 1 << 62, (1 << 63) + 1, usize::MAX - 12345, usize::MAX] } else { vec![(1 << 40) + 3, 1 << 62, (1 << 63) + 1, usize::MAX] };
     let counts: Vec<usize> = if thorough { vec![1, 2, 3, 5, 17, 100, 1000] } else { vec![1, 3, 17, 300] };
+    if only == "conv" {
+        // C11 at the top of the range: the same contents reached by CONVERSION - a sparse vector made from a run-length one and
+        // the other way round (few set bits, lengths up to usize::MAX; gaps that need 22 code units)
+        let mut contents: Vec<(String, usize, Runs)> = Vec::new();
+        for n in universes.iter() { for m in [1usize, 3, 17] {
+            let w = ((*n as f64) * std::f64::consts::LN_2 / (m as f64)).log2().round().max(1.0) as usize;
+            contents.push((format!("C.n{}.m{}", n, m), *n, spread(&mut rng, *n, m, w)));
+        } }
+        contents.push(("C.max".into(), usize::MAX, vec![(0, 1), (usize::MAX - 1, 1)]));
+        contents.push(("C.over63".into(), (1 << 63) + 10, vec![(5, 1), ((1 << 63) + 7, 1)]));
+        contents.push(("C.63".into(), 1 << 63, vec![(3, 10), ((1 << 63) - 2, 2)]));
+        // (no empty vector here: with no set bit the sparse builder keeps 1-bit low parts and needs universe / 2 bits of memory)
+        for (label, len, runs) in contents.iter() {
+            let runs = bv::normalize(*len, runs.clone());
+            record_one(&mut out, &mut rng, label, "sparse", "from_rl", *len, &runs, &mut stats);
+            record_one(&mut out, &mut rng, label, "rl", "from_sparse", *len, &runs, &mut stats);
+        }
+        out.write(path);
+        return json!({"objects": stats["objects"], "queries": stats["queries"], "events": out.lines.len(), "sample": serde_json::from_str::<Value>(&out.lines[0]).unwrap()});
+    }
     for n in universes.iter().filter(|_| only != "rl") {
         for m in counts.iter() {
             let w = ((*n as f64) * std::f64::consts::LN_2 / (*m as f64)).log2().round().max(1.0) as usize;
